@@ -99,6 +99,7 @@ static std::vector<OItem> fromReplay(const Replay &r) {
 static std::string checkCase(const std::vector<OItem> &items) {
     armCase("sub=one\n" + replayOf(items));
     InstCfg k; k.bufLen = 16; k.queueLen = 256;   // large enough for every refused data call of a case
+    k.decoy = (hashStr(replayOf(items)) & 3) == 0;   // a quarter of the cases run next to a second instrument that answers the same query from inside this one's write callback (fixture.hpp)
     std::string msg;
     {
         std::vector<std::vector<OItem>> units(1);
